@@ -122,17 +122,20 @@ ImplAnchor2(pos, sb) ==
 (*  [bounds: <<s,l,e,h>> ticks, shape: [kind, parts],                      *)
 (*   feat: <<[name, unit, dup: BOOLEAN, v: ticks], ...>> (known terms),    *)
 (*   anchors: <<<<2t, 2f>>, ...>> in the order of Positions,               *)
-(*   centroid, surface: <<limbs(time in ticks), limbs(frequency in Hz)>>]  *)
+(*   centroid, surface: <<limbs(time in ticks), limbs(frequency in Hz)>>,  *)
+(*   raised: <<"function:Exception", ...>> (a call that raised leaves a    *)
+(*   fixed-shape placeholder in its field)]                                *)
 (* Off-lattice values arrive as the integer -777777 (never an expected one)*)
 (***************************************************************************)
-Clauses == {"BoundsExact", "ShapelyKind", "ShapelyCoords", "FeaturesPresent", "FeatureValues",
+Clauses == {"NoRaise", "BoundsExact", "ShapelyKind", "ShapelyCoords", "FeaturesPresent", "FeatureValues",
             "AnchorExact", "CentroidInside", "SurfaceInside"}
 Inside(p, b) == LIn(p[1], b[1], b[3]) /\ LIn(p[2], b[2] * HZ, b[4] * HZ)
 Holds(cl, o) ==
     LET g == o.in.g  b == B(g)  R == o.out.runs IN
     \A u \in DOMAIN R :
       LET r == R[u] IN
-      CASE cl = "BoundsExact"   -> r.bounds = b
+      CASE cl = "NoRaise"       -> r.raised = <<>>            \* "for every geometry ... returns": none of the four functions raises
+        [] cl = "BoundsExact"   -> r.bounds = b
         \* the kind is preserved where the geometry has a shapely namesake
         [] cl = "ShapelyKind"   -> g.type \in GeoJsonKinds => r.shape.kind = g.type
         [] cl = "ShapelyCoords" -> ShapePreserves(g, r.shape)
